@@ -1,5 +1,6 @@
 import XvcRepo.Effects
 import XvcRepo.Props.C03
+import XvcRepo.Gen.MoveToCache
 /-!
   # C07 — A killed xvc command never corrupts the repository or loses data
 
@@ -319,6 +320,176 @@ theorem C07_recheck_rerun_converges (c : Cfg) (s : St) (p : Path) (e : Ent) (r :
     rw [List.take_of_length_le (by simp)]
     exact s3ok
 
+/-! ## a symbolic link carried into the cache: the data copy call by call (`moveLinkMicro`, `carryLinkMicro`) -/
+
+theorem runF_append (x : FS) (l1 l2 : List FMicro) : runF x (l1 ++ l2) = runF (runF x l1) l2 := by
+  simp [runF, List.foldl_append]
+
+theorem runF_preserves (P : FS → Prop) (l : List FMicro) (h : ∀ f ∈ l, ∀ y, P y → P (f y)) (x : FS) (hx : P x) :
+    P (runF x l) := by
+  induction l generalizing x with
+  | nil => exact hx
+  | cons f l ih =>
+    exact ih (fun g hg => h g (List.mem_cons_of_mem _ hg)) (f x) (h f (List.mem_cons_self ..) x hx)
+
+theorem upd_upd {α β : Type} [DecidableEq α] (f : α → β) (a : α) (b c : β) : upd (upd f a b) a c = upd f a c := by
+  funext x; by_cases hx : x = a <;> simp [upd, hx]
+
+/-- while the chunks are written, they are in the temporary file and the repository itself is untouched -/
+theorem runF_appendTmp (x : FS) (a : Addr) (acc : Bytes) (l : List Bytes) (h : x.tmp a = some acc) :
+    (runF x (l.map (fAppendTmp a))).st = x.st ∧ (runF x (l.map (fAppendTmp a))).tmp a = some (acc ++ l.flatten) := by
+  induction l generalizing x acc with
+  | nil => simp [runF, h]
+  | cons c l ih =>
+    have h' : (fAppendTmp a c x).tmp a = some (acc ++ c) := by simp [fAppendTmp, h]
+    have := ih (fAppendTmp a c x) (acc ++ c) h'
+    simp only [List.map_cons, runF, List.foldl_cons] at this ⊢
+    refine ⟨this.1, ?_⟩
+    rw [this.2]; simp [List.append_assoc]
+
+/-- every prefix of `fs::copy(path, temp_cache_path)`: nothing in the repository changed; once all calls are made the
+    temporary file holds all the bytes -/
+theorem copyToTmp_prefix (x : FS) (a : Addr) (cs : List Bytes) (k : Nat) :
+    (runF x ((copyToTmp a cs).take k)).st = x.st ∧
+    (cs.length + 1 ≤ k → (runF x ((copyToTmp a cs).take k)).tmp a = some cs.flatten) := by
+  match k with
+  | 0 => exact ⟨rfl, fun h => by omega⟩
+  | j + 1 =>
+    have hx : (fCreateTmp a x).tmp a = some [] := by simp [fCreateTmp]
+    have := runF_appendTmp (fCreateTmp a x) a [] (cs.take j) hx
+    simp only [copyToTmp, List.take_succ_cons, List.map_take, runF, List.foldl_cons] at this ⊢
+    refine ⟨this.1, fun hk => ?_⟩
+    rw [this.2, List.take_of_length_le (by omega)]; simp
+
+/-- the cache is the old one with the complete bytes `B` at `a` -/
+def LinkShape (z : FS) (a : Addr) (B : Bytes) (stamp : Nat) (y : FS) : Prop :=
+  ∃ ro, y.st.cache = upd z.st.cache a (some ⟨B, ro, stamp⟩)
+
+/-- after the `rename` every later call of `carry_in` keeps the complete object at the address -/
+theorem afterRename_shape (z : FS) (p : Path) (a : Addr) (m : Method) (B : Bytes) (stamp : Nat) :
+    ∀ f ∈ [fUnlinkLink p, fChmodObj a, fChmodDir a, liftF (mUnlinkWs p), liftF (mMaterialise p a m)],
+      ∀ y, LinkShape z a B stamp y → LinkShape z a B stamp (f y) := by
+  intro f hf y ⟨ro, hy⟩
+  simp only [List.mem_cons, List.not_mem_nil, or_false] at hf
+  rcases hf with rfl | rfl | rfl | rfl | rfl
+  · exact ⟨ro, hy⟩
+  · have ha : y.st.cache a = some ⟨B, ro, stamp⟩ := by rw [hy]; simp
+    refine ⟨true, ?_⟩
+    simp only [fChmodObj, ha, setCache_cache, hy, upd_upd]
+  · exact ⟨ro, hy⟩
+  · exact ⟨ro, by simp only [liftF, mUnlinkWs_cache]; exact hy⟩
+  · exact ⟨ro, by simp only [liftF, mMaterialise_cache]; exact hy⟩
+
+/-- every prefix of what follows the copy, started with the complete bytes in the temporary file -/
+theorem afterCopy_prefix (z : FS) (p : Path) (a : Addr) (m : Method) (B : Bytes) (stamp : Nat) (hz : z.tmp a = some B) (n : Nat) :
+    runF z ((afterCopy p a stamp ++ [liftF (mUnlinkWs p), liftF (mMaterialise p a m)]).take n) = z ∨
+    LinkShape z a B stamp (runF z ((afterCopy p a stamp ++ [liftF (mUnlinkWs p), liftF (mMaterialise p a m)]).take n)) := by
+  match n with
+  | 0 => left; rfl
+  | n + 1 =>
+    right
+    simp only [afterCopy, List.cons_append, List.nil_append, List.take_succ_cons, runF, List.foldl_cons]
+    apply runF_preserves (LinkShape z a B stamp)
+    · intro f hf
+      exact afterRename_shape z p a m B stamp f (List.mem_of_mem_take hf)
+    · exact ⟨false, by simp [fRenameTmp, hz]⟩
+
+/-- **C07_no_partial_object_link**: `carry_in` of a path that is a SYMBOLIC LINK (to an object of the cache: symlink
+    recheck method carried to a new address; or to a data file outside of the repository), with the bytes the link
+    points to delivered in ANY division `cs` into single copy calls: at **every** kill point - before, between and
+    after the calls of the data copy included - every object in the cache is an old object or holds exactly the
+    content its address names.  The bytes are written under the hidden temporary name; the address gets them by
+    `rename`, all at once. -/
+theorem C07_no_partial_object_link (x : FS) (p : Path) (a : Addr) (m : Method) (cs : List Bytes) (stamp : Nat) (k : Nat)
+    (h : HashOf a.d cs.flatten) :
+    ∀ a' o, (runF x ((carryLinkMicro p a m cs stamp).take k)).st.cache a' = some o →
+      x.st.cache a' = some o ∨ HashOf a'.d o.b := by
+  intro a' o ho
+  have hl : (copyToTmp a cs).length = cs.length + 1 := by simp [copyToTmp]
+  have e : carryLinkMicro p a m cs stamp =
+      copyToTmp a cs ++ (afterCopy p a stamp ++ [liftF (mUnlinkWs p), liftF (mMaterialise p a m)]) := by
+    simp only [carryLinkMicro, moveLinkMicro, List.append_assoc]
+  rw [e, List.take_append, runF_append, hl] at ho
+  obtain ⟨hst, htmp⟩ := copyToTmp_prefix x a cs k
+  generalize runF x ((copyToTmp a cs).take k) = z at ho hst htmp
+  by_cases hk : cs.length + 1 ≤ k
+  · rcases afterCopy_prefix z p a m cs.flatten stamp (htmp hk) (k - (cs.length + 1)) with he | ⟨ro, hs⟩
+    · rw [he, hst] at ho; exact Or.inl ho
+    · rw [hs, hst] at ho
+      by_cases ha : a' = a
+      · subst ha; simp at ho; subst ho; exact Or.inr h
+      · rw [upd_other _ _ ha] at ho; exact Or.inl ho
+  · have : k - (cs.length + 1) = 0 := by omega
+    rw [this] at ho
+    simp only [List.take_zero, runF, List.foldl_nil] at ho
+    rw [hst] at ho; exact Or.inl ho
+
+/-- **C07_link_carried_complete**: the uninterrupted `move_to_cache` of a link ends with the complete, read-only
+    object at the address. -/
+theorem C07_link_carried_complete (x : FS) (p : Path) (a : Addr) (cs : List Bytes) (stamp : Nat) :
+    (runF x (moveLinkMicro p a cs stamp)).st.cache a = some ⟨cs.flatten, true, stamp⟩ := by
+  obtain ⟨hst, htmp⟩ := copyToTmp_prefix x a cs (cs.length + 1)
+  have hl : (copyToTmp a cs).length = cs.length + 1 := by simp [copyToTmp]
+  rw [List.take_of_length_le (by omega)] at hst htmp
+  have hz := htmp (Nat.le_refl _)
+  simp only [moveLinkMicro, runF_append]
+  generalize runF x (copyToTmp a cs) = z at hst hz
+  simp [afterCopy, runF, fRenameTmp, hz, fUnlinkLink, fChmodObj, fChmodDir]
+
+theorem setCache_dirRo' (s : St) (a : Addr) (o : Option Obj) : (s.setCache a o).dirRo = s.dirRo := rfl
+
+/-- **C07_link_full_fold_is_moveToCache**: all the calls of `moveLinkMicro` together are `St.moveToCache` of the
+    repository model (C01-C05) for a link to a cached object - the refined crash model and the command model are one. -/
+theorem C07_link_full_fold_is_moveToCache (s : St) (tmp : Addr → Option Bytes) (p : Path) (a a' : Addr) (o : Obj)
+    (cs : List Bytes) (hw : s.ws p = some (.sym a')) (ho : s.cache a' = some o) (hcs : cs.flatten = o.b) :
+    (runF ⟨s, tmp⟩ (moveLinkMicro p a cs s.clock)).st.cache = (s.moveToCache p a).1.cache ∧
+    (runF ⟨s, tmp⟩ (moveLinkMicro p a cs s.clock)).st.ws = (s.moveToCache p a).1.ws ∧
+    (runF ⟨s, tmp⟩ (moveLinkMicro p a cs s.clock)).st.dirRo = (s.moveToCache p a).1.dirRo ∧
+    (runF ⟨s, tmp⟩ (moveLinkMicro p a cs s.clock)).st.recs = (s.moveToCache p a).1.recs ∧
+    (s.moveToCache p a).2 = .ok := by
+  obtain ⟨hst, htmp⟩ := copyToTmp_prefix ⟨s, tmp⟩ a cs (cs.length + 1)
+  have hl : (copyToTmp a cs).length = cs.length + 1 := by simp [copyToTmp]
+  rw [List.take_of_length_le (by omega)] at hst htmp
+  have hz := htmp (Nat.le_refl _)
+  simp only [moveLinkMicro, runF_append]
+  generalize runF ⟨s, tmp⟩ (copyToTmp a cs) = z at hst hz
+  simp only at hst
+  have hm : s.moveToCache p a =
+      ({ ((((s.setWs p (some (.file o.b true s.clock none))).tick).setWs p none).setCache a (some ⟨o.b, true, s.clock⟩)) with
+          dirRo := upd s.dirRo a.d true }, .ok) := by
+    simp [St.moveToCache, St.deref, hw, ho, St.tick, setCache_dirRo']
+  rw [hm]
+  simp [afterCopy, runF, fRenameTmp, hz, fUnlinkLink, fChmodObj, fChmodDir, hst, hcs, upd_upd, St.tick, setCache_dirRo']
+
+/-- **C07_moveToCache_address_written_by_rename_only** (translator obligation, table `Gen/MoveToCache.lean` regenerated
+    from `move_to_cache` on every run): among the calls of `move_to_cache` that create a file or put bytes into one,
+    the only ones whose destination is the cache address are `rename`s; every copy goes to the temporary name, which
+    is hidden and in the directory of the address.  This is what `mMoveIn` and `moveLinkMicro` transcribe. -/
+theorem C07_moveToCache_address_written_by_rename_only :
+    (∀ e ∈ Gen.moveToCacheWrites, e.2 = .addr → e.1 = .rename) ∧
+    (∀ e ∈ Gen.moveToCacheWrites, e.2 ≠ .other) ∧
+    (∃ e ∈ Gen.moveToCacheWrites, e = (.copy, .temp)) ∧
+    Gen.tempNameHidden = true ∧ Gen.tempIsSibling = true := by
+  decide
+
+/-- **C07_symlink_in_place_copy_counterexample**: `fs::copy(path, cache_path)` for a link - the bytes written at the
+    address itself.  `p` is a link of the symlink method to the object of "h\n" under its text digest; it is carried
+    to the address of its binary digest in two calls.  Killed after the first: an object with HALF of the bytes sits
+    at an address that names all of them (and stays: the address "exists").  The uninterrupted run is fine. -/
+theorem C07_symlink_in_place_copy_counterexample :
+    let old : Addr := ⟨⟨0, [104]⟩, 1⟩
+    let a : Addr := ⟨⟨0, [104, 10]⟩, 1⟩
+    let x : FS := ⟨(St.init.setCache old (some ⟨[104, 10], true, 0⟩)).setWs ⟨0, 1⟩ (some (.sym old)), fun _ => none⟩
+    let killed := runF x ((moveLinkInPlaceMicro ⟨0, 1⟩ a [[104], [10]] 1).take 2)
+    (killed.st.cache a).map (·.b) = some [104] ∧ ¬ HashOf a.d [104] ∧ HashOf a.d [[104], [10]].flatten ∧
+    ((runF x (moveLinkInPlaceMicro ⟨0, 1⟩ a [[104], [10]] 1)).st.cache a).map (·.b) = some [104, 10] ∧
+    ∀ k, k ≤ 8 → ((runF x ((carryLinkMicro ⟨0, 1⟩ a .symlink [[104], [10]] 1).take k)).st.cache a).map (·.b) ∈
+      [none, some [104, 10]] := by
+  refine ⟨by decide, by unfold HashOf; decide, by unfold HashOf; decide, by decide, by decide⟩
+
+/-- the hypotheses of `C07_no_partial_object_link` are satisfiable by a non-trivial division into calls -/
+example : HashOf (⟨⟨0, [104, 10]⟩, 1⟩ : Addr).d [[104], [10]].flatten := by unfold HashOf; decide
+
 example : ∃ d : List DirEntry, (∀ x ∈ visible d, x.complete = true) ∧ (∀ x ∈ d, x.name ≠ 7) :=
   ⟨[⟨3, false, true⟩, ⟨5, true, false⟩], by decide, by decide⟩
 
@@ -344,3 +515,13 @@ open Repo in
 #print axioms C07_carryIn_failed_recheck_recorded
 open Repo in
 #print axioms C07_carryIn_failed_recheck_counterexample_before_fix
+open Repo in
+#print axioms C07_no_partial_object_link
+open Repo in
+#print axioms C07_link_carried_complete
+open Repo in
+#print axioms C07_symlink_in_place_copy_counterexample
+open Repo in
+#print axioms C07_link_full_fold_is_moveToCache
+open Repo in
+#print axioms C07_moveToCache_address_written_by_rename_only
